@@ -268,15 +268,17 @@ let register (reg : ostring -> (ostring list -> ostring list) -> (ostring list -
     let rs = ref rstore0 and nrun = ref 0 and created = ref [] in
     List.map (fun op ->
       match split '.' op with
-      | ["t"; fid] ->
+      | [("t" | "u") as which; fid] ->
+        let wf = n_of_int (if which = "t" then 1 else 2) in
         let fid = n_of_int (ios fid) in
-        (match ref_step !rs (SLatest (n_of_int 1, fid)) with
+        (match ref_step !rs (SLatest (wf, fid)) with
          | (_, ObRec (Some r)) when rs_valid r.r_state && not (rs_finished r.r_state) -> "inprog"
          | _ ->
            incr nrun;
-           let r = { r_wf = n_of_int 1; r_fid = fid; r_run = n_of_int !nrun; r_state = RSInitiated; r_status = zi 1; r_obj = OVal (Z0, []);
+           let r = { r_wf = wf; r_fid = fid; r_run = n_of_int !nrun; r_state = RSInitiated; r_status = zi 1; r_obj = OVal (Z0, []);
                      r_created = zi !nrun; r_updated = zi !nrun; r_ver = zi 1; r_reason = N0; r_desc = zi 1 } in
            rs := fst (ref_step !rs (SStore r)); created := !created @ [r.r_run]; "ok")
+      | ["n"; _] -> "err:none"   (* trigger.go: a workflow that is not running refuses at once, before any lookup or write *)
       | ["w"; k; state] ->
         let k = ios k in
         if k < 1 || k > List.length !created then "nf"
